@@ -1,4 +1,4 @@
-import HmsProofs.Lemmas.SimHArgs
+import HmsProofs.Lemmas.SimHIdx
 import HmsProofs.Lemmas.SimHStatic
 /-!
 # Statements of the general fragment: the induction steps
